@@ -1,7 +1,6 @@
 ------------------------- MODULE TraceFilterRefresh -------------------------
 (* Trace validation for C13.  Events recorded from the real
-   filterstorage.Default + hashprefix.Filter (harness c13_test.go) and from a
-   SIGKILLed child process + verifier (c13crash_test.go):
+   filterstorage.Default + hashprefix.Filter (harness c13_test.go):
 
      Reset{absent}                 a fresh storage; rule lists in `absent` never loaded
      Round{faults, remote}         one refresh round ran with these faults (produced for real)
@@ -15,12 +14,15 @@
    Between Round and the next event the steps of the round are silent actions
    of FilterRefresh (faults bound to the recorded ones); a Crash event may be
    consumed after any number of them -- TLC searches for a crash point that
-   explains the observed files.  Version numbers: 0 nothing, k complete
-   version k, -1 anything else (partial, mixed, garbled).
+   explains the files found.  Version numbers: 0 nothing, k complete version
+   k, -1 anything else (partial, mixed, garbled).
 
-   The property clauses are, in addition, evaluated directly on what was
-   observed (Obs* invariants), so that a violation is named even where the
-   model and the code part ways.                                            *)
+   Every observation is checked twice: the property clauses are evaluated
+   directly on what was observed, and the observation is compared with the
+   state of the model.  A failing observation does not block: it is printed as
+   <<"NONCONF", event number, <<failed clauses>>, model served, model disk>>
+   and the model is re-synchronised with the observation, so that every
+   failing event of a run is reported.                                       *)
 EXTENDS FilterRefresh
 
 VARIABLES l,      \* next event
@@ -37,7 +39,48 @@ Consume(e) == l <= Len(Trace) /\ E.ev = e /\ l' = l + 1 /\ Mark
 
 NoObs == [kind |-> "none", served |-> [x \in ObsLists |-> 0], disk |-> Zero, applied |-> FALSE, ok |-> TRUE]
 
-TraceInit == Init /\ l = 1 /\ rf = NoFaults /\ obs = NoObs /\ oprev = NoObs /\ TLCSet(1, 1)
+-----------------------------------------------------------------------------
+\* the property on an observation o with baseline b
+OFailing(x) == Failing(rf[x]) \/ (x \in RLs /\ x = Victim /\ rf["ridx"] = "invown")
+CFaultyKeepsPrevious(o, b) == \A x \in ObsLists : OFailing(x) => o.served[x] = b.served[x]
+COthersPreviousOrNew(o, b) == \A x \in ObsLists : o.served[x] \in {b.served[x], remote[x]} /\ o.served[x] >= 0
+CValidIndexEntriesApplied(o, b) ==
+    rf["ridx"] \in {"ok", "inv", "invown"} /\ rf["sidx"] \in {"ok", "inv"} /\ rf["ss"] = "ok"
+    => /\ o.applied
+       /\ \A x \in RLs : rf[x] = "ok" /\ ~OFailing(x) => o.served[x] = remote[x]
+       /\ o.served["sidx"] = remote["sidx"]
+CFaultyIndexNotApplied(o, b) == Failing(rf["ridx"]) => ~o.applied
+CDiskAlwaysComplete(o, b) == \A x \in Lists : o.disk[x] >= 0 /\ o.disk[x] \in {b.disk[x], remote[x]}
+CRestartUsable(o, b) ==
+    /\ o.ok
+    /\ \A x \in ObsLists : o.disk[x] > 0 /\ ~(x \in RLs /\ x = Victim /\ o.disk["ridx"] \in ownBad)
+                           => o.served[x] = o.disk[x]
+\* ... and the model explains it (ms, md, mok: what the model says)
+CMatchesModel(o, ms, md, mok) ==
+    /\ o.ok = mok
+    /\ mok => /\ \A x \in ObsLists : o.served[x] = ms[x]
+              /\ \A x \in Lists : o.disk[x] = md[x]
+              /\ o.kind = "round" => o.applied = (ms["ridx"] = remote["ridx"])
+
+N(c, name) == IF c THEN <<>> ELSE <<name>>
+RoundBad(o, b) ==
+    N(CFaultyKeepsPrevious(o, b), "FaultyKeepsPrevious") \o N(COthersPreviousOrNew(o, b), "OthersPreviousOrNew")
+    \o N(CValidIndexEntriesApplied(o, b), "ValidIndexEntriesApplied") \o N(CFaultyIndexNotApplied(o, b), "FaultyIndexNotApplied")
+    \o N(CDiskAlwaysComplete(o, b), "DiskAlwaysComplete") \o N(CMatchesModel(o, served, disk, alive), "MatchesModel")
+ProbeBad(o, b) ==
+    N(CDiskAlwaysComplete(o, b), "DiskAlwaysComplete") \o N(CMatchesModel(o, served, disk, alive), "MatchesModel")
+Report(bad) == IF bad = <<>> THEN TRUE ELSE PrintT(<<"NONCONF", l, bad, served, disk>>)
+
+\* the model continues from what was observed
+Resync(o) ==
+    /\ served' = [x \in Lists |-> IF x = "ridx"
+                                  THEN (IF o.kind = "round" THEN (IF o.applied THEN remote[x] ELSE prev[x]) ELSE o.disk[x])
+                                  ELSE o.served[x]]
+    /\ disk' = o.disk
+    /\ alive' = o.ok
+
+-----------------------------------------------------------------------------
+TraceInit == Init /\ disk = [x \in Lists |-> 1] /\ l = 1 /\ rf = NoFaults /\ obs = NoObs /\ oprev = NoObs /\ TLCSet(1, 1)
 
 TraceReset ==
     /\ Consume("Reset")
@@ -50,7 +93,7 @@ TraceReset ==
     /\ remote' = [x \in Lists |-> 1] /\ fault' = NoFaults /\ rf' = NoFaults
     /\ prev' = served' /\ dprev' = disk'
     /\ pending' = Zero /\ got' = "none" /\ pc' = Idle /\ alive' = TRUE /\ phase' = "start" /\ rounds' = 0
-    /\ ownBad' = {} /\ svcBad' = {} /\ hist' = hist
+    /\ ownBad' = {} /\ svcBad' = {} /\ hist' = <<>>
 
 TraceRound ==
     /\ Consume("Round") /\ StartRound
@@ -64,58 +107,38 @@ Silent ==
     /\ UNCHANGED <<l, rf, obs, oprev>>
 
 TraceProbe ==
-    /\ Consume("Probe") /\ alive /\ pc.i = 0
-    /\ obs' = [kind |-> IF phase = "run" THEN "round" ELSE "probe", served |-> E.served, disk |-> E.disk,
-               applied |-> E.applied, ok |-> TRUE]
-    /\ UNCHANGED <<vars, rf, oprev>>
+    /\ Consume("Probe") /\ pc.i = 0
+    /\ LET o == [kind |-> IF phase = "run" THEN "round" ELSE "probe", served |-> E.served, disk |-> E.disk,
+                 applied |-> E.applied, ok |-> TRUE]
+       IN /\ Report(IF o.kind = "round" THEN RoundBad(o, oprev) ELSE ProbeBad(o, oprev))
+          /\ obs' = o
+          /\ Resync(o)
+    /\ UNCHANGED <<remote, fault, prev, dprev, pending, got, pc, phase, rounds, ownBad, svcBad, hist, rf, oprev>>
 
 \* A crash point must explain the files found -- unless they are not even
-\* complete versions, which ObsDiskAlwaysComplete then reports by name.
-DiskLegal(d) == \A x \in Lists : d[x] >= 0 /\ d[x] \in {oprev.disk[x], remote[x]}
+\* complete versions, which is reported by name.
 TraceCrash ==
     /\ Consume("Crash") /\ Crash
-    /\ (\A x \in Lists : E.disk[x] = disk[x]) \/ ~DiskLegal(E.disk)
-    /\ obs' = [kind |-> "crash", served |-> [x \in ObsLists |-> 0], disk |-> E.disk, applied |-> FALSE, ok |-> TRUE]
+    /\ LET o == [kind |-> "crash", served |-> [x \in ObsLists |-> 0], disk |-> E.disk, applied |-> FALSE, ok |-> TRUE]
+       IN /\ obs' = o
+          /\ IF CDiskAlwaysComplete(o, oprev)
+             THEN \A x \in Lists : E.disk[x] = disk[x]
+             ELSE PrintT(<<"NONCONF", l, <<"DiskAlwaysComplete">>, served, disk>>)
     /\ UNCHANGED <<rf, oprev>>
 
 TraceRestart ==
-    /\ Consume("Restart") /\ Restart(E.up)
-    /\ obs' = [kind |-> "restart", served |-> E.served, disk |-> E.disk, applied |-> FALSE, ok |-> E.ok]
-    /\ UNCHANGED <<rf, oprev>>
+    /\ Consume("Restart") /\ ~alive
+    /\ LET o == [kind |-> "restart", served |-> E.served, disk |-> E.disk, applied |-> FALSE, ok |-> E.ok]
+           r == RestartResult(E.up)
+       IN /\ Report(N(CRestartUsable(o, oprev), "RestartUsable") \o N(CDiskAlwaysComplete(o, oprev), "DiskAlwaysComplete")
+                    \o N(CMatchesModel(o, r.served, r.disk, r.ok), "MatchesModel"))
+          /\ obs' = o
+          /\ Resync(o)
+    /\ phase' = "start" /\ prev' = served' /\ dprev' = disk' /\ fault' = NoFaults
+    /\ UNCHANGED <<remote, pending, got, pc, rounds, ownBad, svcBad, hist, rf, oprev>>
 
 TraceNext == TraceReset \/ TraceRound \/ Silent \/ TraceProbe \/ TraceCrash \/ TraceRestart
 TraceSpec == TraceInit /\ [][TraceNext]_tvars
-
------------------------------------------------------------------------------
-\* the property on the observations themselves
-OFailing(x) == Failing(rf[x]) \/ (x \in RLs /\ x = Victim /\ rf["ridx"] = "invown")
-\* was list x reached by the round at all, going by the recorded faults?
-IdxFailed == Failing(rf["ridx"])
-ObsFaultyKeepsPrevious ==
-    obs.kind = "round" => \A x \in ObsLists : OFailing(x) => obs.served[x] = oprev.served[x]
-ObsOthersPreviousOrNew ==
-    obs.kind = "round" => \A x \in ObsLists : obs.served[x] \in {oprev.served[x], remote[x]} /\ obs.served[x] >= 0
-ObsValidIndexEntriesApplied ==
-    obs.kind = "round" /\ rf["ridx"] \in {"ok", "inv", "invown"} /\ rf["sidx"] \in {"ok", "inv"} /\ rf["ss"] = "ok"
-    => /\ obs.applied
-       /\ \A x \in RLs : rf[x] = "ok" /\ ~OFailing(x) => obs.served[x] = remote[x]
-       /\ obs.served["sidx"] = remote["sidx"]
-ObsFaultyIndexNotApplied == obs.kind = "round" /\ IdxFailed => ~obs.applied
-ObsDiskAlwaysComplete ==
-    obs.kind \in {"round", "crash", "restart", "probe"} =>
-        \A x \in Lists : obs.disk[x] >= 0 /\ obs.disk[x] \in {oprev.disk[x], remote[x]}
-ObsRestartUsable ==
-    obs.kind = "restart" =>
-        /\ obs.ok
-        /\ \A x \in ObsLists : obs.disk[x] > 0 /\ ~(x \in RLs /\ x = Victim /\ obs.disk["ridx"] \in ownBad)
-                               => obs.served[x] = obs.disk[x]
-\* ... and the model explains them
-ObsMatchesModel ==
-    /\ obs.kind \in {"round", "probe", "restart"} /\ obs.ok /\ alive =>
-          /\ \A x \in ObsLists : obs.served[x] = served[x]
-          /\ \A x \in Lists : obs.disk[x] = disk[x]
-    /\ obs.kind = "round" => obs.applied = (served["ridx"] = remote["ridx"])
-    /\ obs.kind = "restart" => obs.ok = alive
 
 TraceAccepted ==
     IF TLCGet(1) = Len(Trace) + 1 THEN TRUE
